@@ -120,7 +120,8 @@ def run_sqlite(case, ctx, d):
         kw["crs_xy"] = case["crs_xy"]
     m = pk(SqliteMap, "stored", use_latlon=latlon, dir=d, **kw)
     nodes, edges = {}, []
-    un_nodes, un_edges, uncommitted = False, False, False
+    # what still lacks an index row: nodes added with no_index; edges whose every add_edge call so far said no_index
+    un_nodes, un_edges, uncommitted = set(), set(), False
     reopens = 0
     stats = {"deferred": False, "linked": False, "other_process": False}
     for op in case["ops"]:
@@ -129,10 +130,15 @@ def run_sqlite(case, ctx, d):
             _, lab, loc, no_index, no_commit = op
             pk(m.add_node, lab, tuple(loc), no_index=no_index, no_commit=no_commit)
             nodes[lab] = t2(loc)
-            un_nodes |= no_index
+            if no_index:
+                un_nodes.add(lab)
             uncommitted |= no_commit
             if not no_commit:
                 uncommitted = False
+        elif k == "add_node_again":
+            # a known label with ignore_doubles=True: documented to be ignored (the stored coordinates stay)
+            pk(m.add_node, op[1], tuple(op[2]), ignore_doubles=True)
+            stats["repeated_node"] = True
         elif k == "add_nodes":
             pk(m.add_nodes, [(l, tuple(p)) for l, p in op[1]])
             for l, p in op[1]:
@@ -143,7 +149,10 @@ def run_sqlite(case, ctx, d):
             pk(m.add_edge, a, b, no_index=no_index, no_commit=no_commit)
             if (a, b) not in edges:
                 edges.append((a, b))
-            un_edges |= no_index
+                if no_index:
+                    un_edges.add((a, b))
+            elif not no_index:
+                un_edges.discard((a, b))  # adding a known edge again with the index on also writes its missing index row
             uncommitted |= no_commit
             if not no_commit:
                 uncommitted = False
@@ -152,16 +161,16 @@ def run_sqlite(case, ctx, d):
             for e in op[1]:
                 edges.append(tuple(e))
             if op[2]:
-                un_edges = True
+                un_edges |= {tuple(e) for e in op[1]}
             else:
-                un_edges = False  # add_edges re-indexes all edges
+                un_edges = set()  # add_edges re-indexes all edges
             uncommitted = False
         elif k == "reindex_nodes":
             pk(m.reindex_nodes)
-            un_nodes, uncommitted = False, False
+            un_nodes, uncommitted = set(), False
         elif k == "reindex_edges":
             pk(m.reindex_edges)
-            un_edges, uncommitted = False, False
+            un_edges, uncommitted = set(), False
         elif k == "commit":
             pk(m.db.commit)
             uncommitted = False
@@ -175,14 +184,14 @@ def run_sqlite(case, ctx, d):
             n_links = m.db.execute("SELECT count(*) FROM close_edges").fetchall()[0][0]
             stats["linked"] = stats["linked"] or n_links > 0
         elif k == "reopen":
-            stats["deferred"] |= un_nodes or un_edges or uncommitted
+            stats["deferred"] |= bool(un_nodes or un_edges or uncommitted)
             # documented obligations of the deferred modes
             if un_nodes:
                 pk(m.reindex_nodes)
-                un_nodes, uncommitted = False, False
+                un_nodes, uncommitted = set(), False
             if un_edges:
                 pk(m.reindex_edges)
-                un_edges, uncommitted = False, False
+                un_edges, uncommitted = set(), False
             if uncommitted:
                 pk(m.db.commit)
                 uncommitted = False
@@ -238,6 +247,8 @@ def run_pickle(case, ctx, d):
         if k in ("add_node",):
             pk(m.add_node, op[1], tuple(op[2]))
             nodes[op[1]] = t2(op[2])
+        elif k == "add_node_again":
+            continue  # SQLite-only flag
         elif k == "add_nodes":
             for l, p in op[1]:
                 pk(m.add_node, l, tuple(p))
@@ -292,6 +303,8 @@ def check_case(case, ctx):
     finally:
         shutil.rmtree(d, ignore_errors=True)
     classes = [case["backend"], "latlon" if case["latlon"] else "planar", "cycles:%d" % min(reopens, 3)]
+    if stats.get("repeated_node"):
+        classes.append("repeated-node(ignore_doubles)")
     if stats["deferred"]:
         classes.append("deferred-ops")
     if stats.get("linked"):
@@ -353,6 +366,8 @@ def _case(draw, tier):
             choices += ["reopen"]
         if backend == "sqlite":
             choices += ["reindex_nodes", "reindex_edges", "commit"]
+            if have:
+                choices += ["add_node_again"]
             if len(have_edges) >= 2:
                 choices += ["connect_parallelroads", "connect_parallelroads", "connect_parallelroads"]
         k = gen.pick(draw, choices)
@@ -360,6 +375,8 @@ def _case(draw, tier):
             l = pending.pop(0)
             ops.append(["add_node", l, point(), draw(st.booleans()) and backend == "sqlite", draw(st.booleans()) and backend == "sqlite"])
             have.append(l)
+        elif k == "add_node_again":
+            ops.append(["add_node_again", gen.pick(draw, have), point()])
         elif k == "add_nodes":
             cnt = draw(st.integers(1, len(pending)))
             batch = [[pending.pop(0), point()] for _ in range(cnt)]
